@@ -34,14 +34,15 @@ theorem C01_session_cfb (bs : Nat) (hbs : bs = 8 ∨ bs = 16) (E : Bytes → Byt
     (sA sB : Sess) (hA : Fresh sA.k) (hB : Fresh sB.k) (hbB : sB.bufptr = [])
     (hsn : sB.k.rcv_nxt = sA.k.snd_nxt) (hm : 0 < sA.k.mss.toNat) (ops : List C01_COp)
     (hnet : C01_CRunOk { kind := .block, dec := cfbDec E bs (iv bs), crc := crc, aopen := fun _ _ => none }
-      (cfbEnc E bs (iv bs)) ⟨{ s := sA }, { s := sB }⟩ ops)
+      (C01_NetDatagramOk { kind := .block, dec := cfbDec E bs (iv bs), crc := crc, aopen := fun _ _ => none }
+        (cfbEnc E bs (iv bs))) ⟨{ s := sA }, { s := sB }⟩ ops)
     (hL : (C01_crun { kind := .block, dec := cfbDec E bs (iv bs), crc := crc, aopen := fun _ _ => none }
       ⟨{ s := sA }, { s := sB }⟩ ops).A.log.length < 2 ^ 32) :
     (C01_crun { kind := .block, dec := cfbDec E bs (iv bs), crc := crc, aopen := fun _ _ => none }
         ⟨{ s := sA }, { s := sB }⟩ ops).B.rd <+:
       (C01_crun { kind := .block, dec := cfbDec E bs (iv bs), crc := crc, aopen := fun _ _ => none }
         ⟨{ s := sA }, { s := sB }⟩ ops).A.wr :=
-  C01_session_cipher _ _ (C01_cfb_laws bs hbs E hE crc) sA sB hA hB hbB hsn hm ops hnet hL
+  C01_session_cipher _ _ (C01_gate_step _ _ (C01_cfb_laws bs hbs E hE crc)) sA sB hA hB hbB hsn hm ops hnet hL
 
 section fec
 open KcpVerif.Fec KcpVerif.Lemmas.FecSpec KcpVerif.Lemmas
@@ -84,13 +85,32 @@ theorem C01_session_reductions :
     (∀ (S : Sys) (pl : Bytes) (reg a : Bool) (now : U32), pl ∈ S.A.wire →
       ∃ i, sstep S (.dlv i reg a now) = { S with B := step S.B (.input pl reg a now) }) :=
   ⟨fun _ bs hbs E hE crc kcpInput frames ds s h =>
-      C01_cipher_reduction _ _ (C01_cfb_laws bs hbs E hE crc) kcpInput frames ds s h,
+      C01_cipher_reduction _ _ (C01_gate_step _ _ (C01_cfb_laws bs hbs E hE crc)) kcpInput frames ds s h,
    fun _ hC grp d p dec hnew pkts hgen => C01_fec_reduction_full hC grp d p dec hnew pkts hgen,
    C01_fec_calls_are_replays⟩
 
 end fec
 
+/-- **`C01_session_aead`**: `C01_session_cipher` for an AEAD (aes-128-gcm …) given the two laws of
+the primitive that `C08_aead_in_buffer` assumes. -/
+theorem C01_session_aead (c : SessIn.Cipher) (ns ov : Nat) (aseal : Bytes → Bytes → Bytes)
+    (hc : C01_AeadLaws c ns ov aseal)
+    (sA sB : Sess) (hA : Fresh sA.k) (hB : Fresh sB.k) (hbB : sB.bufptr = [])
+    (hsn : sB.k.rcv_nxt = sA.k.snd_nxt) (hm : 0 < sA.k.mss.toNat) (ops : List C01_COp)
+    (hnet : C01_CRunOk c (C01_NetDatagramOkAead c ns ov aseal) ⟨{ s := sA }, { s := sB }⟩ ops)
+    (hL : (C01_crun c ⟨{ s := sA }, { s := sB }⟩ ops).A.log.length < 2 ^ 32) :
+    (C01_crun c ⟨{ s := sA }, { s := sB }⟩ ops).B.rd <+: (C01_crun c ⟨{ s := sA }, { s := sB }⟩ ops).A.wr :=
+  C01_session_cipher c _ (C01_gate_step_aead c ns ov aseal hc) sA sB hA hB hbB hsn hm ops hnet hL
+
 /-! ### non-vacuity -/
+
+/-- the AEAD hypotheses are satisfiable: a toy AEAD that appends a one-byte tag equal to the
+plaintext length mod 256 -/
+example : C01_AeadLaws
+    { kind := .aead 12 1, dec := id, crc := fun _ => 0,
+      aopen := fun _ ct => if ct.length = 0 then none else some (ct.take (ct.length - 1)) }
+    12 1 (fun _ p => p ++ [UInt8.ofNat p.length]) :=
+  ⟨rfl, fun _ p => by simp, fun _ p => by simp⟩
 
 /-- the cipher hypotheses are satisfiable with a concrete block function (C08's toy cipher) -/
 example (key : Bytes) : C01_BlockCipherLaws
